@@ -37,7 +37,7 @@ class Cfg:
         self.probe = True
         self.unicode_labels = False
         self.protect_reconfig = True   # never drop datagrams carrying RE-CONFIG (known finding K02)
-        self.sseq_origin = None        # start stream sequence numbers of new channels here (C17)
+        self.sseq_ops = False          # insert ("sseq", i, 0) placeholders after channels open (C17)
         self.__dict__.update(kw)
 
 
@@ -191,9 +191,19 @@ def random_ops(r, cfg):
             do(("create_pair", "B", len(toks) - 1, spec))
 
         nmsgs = 0
+        shifted = set()
         for step in range(cfg.steps):
             x = r.random()
             live = [i for i, t in enumerate(toks) if t is not None]
+            if cfg.sseq_ops:
+                for i in live:
+                    c = env.chan[toks[i]]
+                    if i not in shifted and c["A"] is not None and c["B"] is not None \
+                            and c["A"].readyState == "open" and c["B"].readyState == "open" \
+                            and not env.sent.get((toks[i], "A")) and not env.sent.get((toks[i], "B")) \
+                            and not env.net:
+                        shifted.add(i)
+                        do(("sseq", i, 0))
             if pending_create and (x < 0.15 or not live):
                 e, spec = pending_create.pop(0)
                 do(("create", e, spec))
